@@ -23,6 +23,7 @@ type RulesTarget struct {
 	Link  int    `json:"link"`  // chain offset
 	Start int    `json:"start"` // operand span in the initial rules file
 	End   int    `json:"end"`
+	Links int    `json:"links"` // number of links of the rule (1 = no chain)
 }
 
 type RulesParams struct {
@@ -34,6 +35,10 @@ type RulesParams struct {
 	FlipAt   int    `json:"flip_at"`
 	FlipWith string `json:"flip_with"`
 	EditMode string `json:"edit_mode"` // flip | drop-last | append | empty
+	// LogLevel: value of the global -l flag for the update under test ("" = flag absent)
+	LogLevel string `json:"log_level,omitempty"`
+	// SubdirArg: a rule whose data file lives in a sub directory of regex-assembly (reachable with --all only)
+	SubdirArg string `json:"subdir_arg,omitempty"`
 }
 
 var storedOperandPool = []string{"old", "ARGS", `\\d+`, "S", `x\"!@rx y`, `foo\"@rx bar`, `a\" \x5cb`, `x$`, `(?i)^abc`, `\x5c\"`, `a b  c`, `[\"'` + "`" + `]+`, `!@rx `, ``}
@@ -84,6 +89,12 @@ func genRules(t *rapid.T, tier string) (*World, any) {
 			feat["comment-inside-chain"] = true
 		}
 		opts.Tabs = chance(t, 20, "tabs")
+		if chance(t, 30, "compact") {
+			for i := 0; i < 5; i++ {
+				opts.Compact = append(opts.Compact, drawInt(t, 0, 1, "compact-here"))
+			}
+			feat["two-line-rules"] = true
+		}
 		for i := 0; i < 14; i++ {
 			opts.IDNotFirst = append(opts.IDNotFirst, drawInt(t, 0, 1, "idnotfirst"))
 		}
@@ -196,7 +207,7 @@ func genRules(t *rapid.T, tier string) (*World, any) {
 		}
 		w.Put("crs/regex-assembly/"+arg+".ra", content)
 		sp := rf.Spans[c.rule][c.link]
-		p.Targets = append(p.Targets, RulesTarget{Arg: arg, Rule: c.rule, Link: c.link, Start: sp[0], End: sp[1]})
+		p.Targets = append(p.Targets, RulesTarget{Arg: arg, Rule: c.rule, Link: c.link, Start: sp[0], End: sp[1], Links: len(rf.Rules[c.rule].Ops)})
 	}
 	if len(p.Targets) == 0 {
 		// fall back to the first addressable candidate
@@ -211,7 +222,7 @@ func genRules(t *rapid.T, tier string) (*World, any) {
 			}
 			w.Put("crs/regex-assembly/"+arg+".ra", "fallback[a-c]\"x\n")
 			sp := rf.Spans[c.rule][c.link]
-			p.Targets = append(p.Targets, RulesTarget{Arg: arg, Rule: c.rule, Link: c.link, Start: sp[0], End: sp[1]})
+			p.Targets = append(p.Targets, RulesTarget{Arg: arg, Rule: c.rule, Link: c.link, Start: sp[0], End: sp[1], Links: len(rf.Rules[c.rule].Ops)})
 			break
 		}
 	}
@@ -233,6 +244,29 @@ func genRules(t *rapid.T, tier string) (*World, any) {
 	}
 	for i := 0; i < 3; i++ {
 		p.Plans = append(p.Plans, drawPlan(t, fmt.Sprintf("plan%d", i), true))
+	}
+	if chance(t, 20, "loglevel") {
+		p.LogLevel = pick(t, []string{"debug", "trace", "warn"}, "loglevel-v")
+	}
+	if chance(t, 10, "subdir-data-file") {
+		for _, c := range cands {
+			id := rf.Rules[c.rule].ID
+			if used[c] || len(id) != 6 {
+				continue
+			}
+			arg := id
+			if c.link > 0 {
+				arg = fmt.Sprintf("%s-chain%d", id, c.link)
+			}
+			if _, taken := w.Files["crs/regex-assembly/"+arg+".ra"]; taken {
+				continue // one data file per rule line
+			}
+			// data files may be grouped in sub directories; the --all walks find them there
+			w.Put("crs/regex-assembly/grouped/"+arg+".ra", "sub[a-c]dir\nfile\n")
+			p.SubdirArg = arg
+			feat["data-file-in-sub-directory"] = true
+			break
+		}
 	}
 	p.FlipAt = drawInt(t, 0, 1000, "flipat")
 	p.FlipWith = pick(t, []string{"#", "Z", "~", "0"}, "flipwith")
@@ -264,7 +298,11 @@ func evalC11(sc *Scenario, sim *Sim) ([]Violation, bool, string) {
 			continue // the program does not compile; nothing to write
 		}
 		before := sb.Snap()
-		u := sb.Run(Step{Argv: []string{"regex", "update", tg.Arg}, Cwd: "crs", Plan: p.Plans[1]})
+		uargv := []string{"regex", "update", tg.Arg}
+		if p.LogLevel != "" {
+			uargv = append([]string{"-l", p.LogLevel}, uargv...)
+		}
+		u := sb.Run(Step{Argv: uargv, Cwd: "crs", Plan: p.Plans[1]})
 		after := sb.Snap()
 		got := sb.MustRead(p.RulesPath)
 		want := append(append(append([]byte{}, orig[:tg.Start]...), g.Stdout...), orig[tg.End:]...)
@@ -317,6 +355,19 @@ func evalC11(sc *Scenario, sim *Sim) ([]Violation, bool, string) {
 		}
 		if len(others) > 0 {
 			add("other-files", "update changed files other than the rules file: "+strings.Join(others, " "), "")
+		}
+		// a link one beyond the rule's chain addresses nothing: whatever the exit status (C16), no byte of the rules file may change
+		if tg.Links > 0 && tg.Link == tg.Links-1 {
+			sb.Restore(sc.World)
+			beyond := fmt.Sprintf("%s-chain%d", strings.SplitN(tg.Arg, "-", 2)[0], tg.Links)
+			if _, exists := sc.World.Files["crs/regex-assembly/"+beyond+".ra"]; !exists {
+				sb.Write("crs/regex-assembly/"+beyond+".ra", []byte("beyond[0-9]\n"))
+				ub := sb.Run(Step{Argv: []string{"regex", "update", beyond}, Cwd: "crs", Plan: p.Plans[2]})
+				if got2 := sb.MustRead(p.RulesPath); !bytes.Equal(got2, orig) {
+					add("nonexistent-link-wrote", fmt.Sprintf("`update %s` addresses a chain link the rule does not have (exit %d) but the rules file changed", beyond, ub.Exit),
+						fmt.Sprintf("got:\n%q", clip2(got2, 2500)))
+				}
+			}
 		}
 	}
 	return viol, nontrivial, fmt.Sprintf("%x", sc.World.Hash())
@@ -477,6 +528,20 @@ func evalC12(sc *Scenario, sim *Sim) ([]Violation, bool, string) {
 			c4 := sb.Run(Step{Argv: []string{"regex", "compare", "--all"}, Cwd: "crs", Plan: p.Plans[1]})
 			if !strings.Contains(string(c4.Stdout), "has changed!") {
 				add("edit-then-compare", "all-text", "one byte of the stored operand was edited but `compare --all` does not print \"has changed!\"", clip(c4.Stdout))
+			}
+		}
+	}
+	if p.SubdirArg != "" {
+		// a data file in a sub directory: what `update --all` says it brought up to date, `compare --all` finds up to date
+		sb.Restore(sc.World)
+		if ua := sb.Run(Step{Argv: []string{"regex", "update", "--all"}, Cwd: "crs", Plan: p.Plans[0]}); ua.Exit == 0 {
+			nontrivial = true
+			cg := sb.Run(Step{Argv: []string{"-o", "github", "regex", "compare", "--all"}, Cwd: "crs", Plan: p.Plans[1]})
+			ct := sb.Run(Step{Argv: []string{"regex", "compare", "--all"}, Cwd: "crs", Plan: p.Plans[2]})
+			if cg.Exit != 0 || strings.Contains(string(ct.Stdout), "has changed!") {
+				viol = append(viol, Violation{Prop: "C12", Oracle: "update-then-compare", Sig: "C12/update-then-compare/all-after-all/sub-directory",
+					Msg:    fmt.Sprintf("`update --all` exited 0, yet `compare --all` right after it reports a change (github exit %d); the tree has a data file in a sub directory of regex-assembly (%s)", cg.Exit, p.SubdirArg),
+					Detail: clip(ct.Stdout) + clip(cg.Stdout)})
 			}
 		}
 	}
